@@ -118,10 +118,13 @@ def correspondence(ctx):
     lexe = frames.harness("seqlongsan")
     lops = []
     for i in range(120 if ctx.quick() else 2000):
-        f, x = synth.biglit_frame(rng)
+        f, x, hand = synth.biglit_frame(rng, True)
         if i % 3 == 2:
             f = mutate(rng, f, [])
         cap = rng.choice([len(x), len(x) - 1, len(x) - rng.randint(2, 600), len(x) - rng.randint(600, 6000), rng.randrange(0, len(x)), len(x) + 64])
+        if hand and hand[1] > 0 and i % 2 == 0:
+            # the destination ends inside the literals that the hand-over sequence still has to copy out of the destination-resident part
+            cap = hand[0] + rng.randrange(0, hand[1])
         lops.append(rng.choice(["dec %d %s", "dec %d %s", "bufless %d %s"]) % (max(0, cap), frames.hx(f)) if i % 4 else "decs %d %s %s %s" % (max(0, cap), frames.hx(f), rng.choice(["100000", "1000", "7,100000"]), rng.choice(["100000", "1000"])))
     lops += [ops[i] for i in range(0, len(ops), 25) if ops[i].split()[0] in ("dec", "decs", "bufless")]
     def lrun(idx):
